@@ -2,6 +2,7 @@ package sql
 
 import (
 	"fmt"
+	"go/constant"
 	"regexp"
 	"strings"
 
@@ -202,10 +203,22 @@ func typeConstraint(field sql.Column) string {
 func enumTuple(e *an.Enum) string {
 	chunks := make([]string, len(e.Members))
 	for i, val := range e.Members {
-		chunks[i] = val.Const.Val().ExactString()
+		chunks[i] = sqlLiteral(val.Const.Val())
 	}
-	out := fmt.Sprintf("(%s)", strings.Join(chunks, ", "))
-	return strings.ReplaceAll(out, `"`, `'`) // SQL uses single quote
+	return fmt.Sprintf("(%s)", strings.Join(chunks, ", "))
+}
+
+// sqlLiteral returns the SQL literal for a Go constant:
+// SQL strings use single quotes, escaped by doubling them
+func sqlLiteral(val constant.Value) string {
+	switch val.Kind() {
+	case constant.String:
+		return "'" + strings.ReplaceAll(constant.StringVal(val), "'", "''") + "'"
+	case constant.Float:
+		return val.String()
+	default:
+		return val.ExactString()
+	}
 }
 
 func compositeDecl(cp sql.Composite) string {
